@@ -71,7 +71,9 @@ theorem InvRA.tryAdd {k : Cfg} {s : St} {p : Nat} {el : Int} (h : InvRA k s) (hI
   unfold OtelVerif.C02.tryAdd
   split
   · split
-    · exact h.upd (x := { s.ps p with ph := .sel, el := el, sig := false }) rfl rfl rfl (by simp)
+    · split
+      · exact h.upd (x := { s.ps p with ph := .done .stopped, sig := false }) rfl rfl rfl (by simp)
+      · exact h.upd (x := { s.ps p with ph := .sel, el := el, sig := false }) rfl rfl rfl (by simp)
     · exact h.upd (x := { s.ps p with ph := .done .full, sig := false }) rfl rfl rfl (by simp)
   · split
     · exact h.upd (x := { s.ps p with ph := .done .stopped, sig := false }) rfl rfl rfl (by simp)
@@ -181,8 +183,8 @@ theorem InvRA.step {k : Cfg} {s s' : St} {l : Label} (h : InvRA k s) (hI : Inv k
       intro hw q hq hfin
       unfold finish at hq hfin ⊢
       simp only [hw, if_true] at hq hfin ⊢
-      rw [condSignal_ph] at hq
-      obtain ⟨_, _, _, _, _, c6, _, _, _, c10, _⟩ := condSignal_fields
+      rw [condBroadcast_ph] at hq
+      obtain ⟨_, _, _, _, _, c6, _, _, _, c10, _⟩ := condBroadcast_fields
         { s with size := s.size - el, inflight := s.inflight.filter (fun x => x.1 != id),
                  finished := s.finished ++ [id], outcomes := s.outcomes ++ [(id, e)] }
       rw [c10] at hfin
@@ -192,7 +194,9 @@ theorem InvRA.step {k : Cfg} {s s' : St} {l : Label} (h : InvRA k s) (hI : Inv k
       · exact lookup_append_isSome _ _ _ (h hw q hq a)
       · subst a; exact lookup_append_self _ _ _
     · cases hf
-  | shutdown => simp only [fire] at hf; cases hf; exact h.of rfl rfl (fun _ a => a)
+  | shutdown =>
+    simp only [fire] at hf; cases hf
+    exact h.of rfl rfl (fun q a => by rwa [condBroadcast_ph] at a)
 
 /-! ### persistent queue (re)started on existing storage: arbitrary stored items, arbitrary (stale) restored size -/
 
@@ -244,6 +248,9 @@ theorem InvS.condSignal {k : Cfg} {m : Int} {s : St} (h : InvS k m s) : InvS k m
   obtain ⟨c1, c2, c3, _, _, _, _, _, c9, c10, _⟩ := condSignal_fields s
   exact h.congr c1 c2 c3 c9 c10 (fun q hq => ⟨by rwa [condSignal_ph] at hq, condSignal_el s q⟩)
 
+theorem InvS.condBroadcast {k : Cfg} {m : Int} {s : St} (h : InvS k m s) : InvS k m (condBroadcast s) :=
+  h.congr rfl rfl rfl rfl rfl (fun q hq => ⟨by rwa [condBroadcast_ph] at hq, condBroadcast_el s q⟩)
+
 theorem InvS.ptryAdd {k : Cfg} {m : Int} {s : St} {p : Nat} {el : Int} (h : InvS k m s) (h0 : 0 ≤ el) :
     InvS k m (ptryAdd k s p el) := by
   unfold OtelVerif.C02.ptryAdd
@@ -270,7 +277,7 @@ theorem InvS.ptryAdd {k : Cfg} {m : Int} {s : St} {p : Nat} {el : Int} (h : InvS
     · intro hi; simp [OtelVerif.C02.paccept] at hi
 
 theorem ppop_some' {s s' : St} (h : ppop s = some s') :
-    ∃ s1, pop s = some s1 ∧ ((s1.items ≠ [] ∧ s' = s1) ∨ (s1.items = [] ∧ s' = condSignal { s1 with size := 0 })) := by
+    ∃ s1, pop s = some s1 ∧ ((s1.items ≠ [] ∧ s' = s1) ∨ (s1.items = [] ∧ s' = condBroadcast { s1 with size := 0 })) := by
   unfold ppop at h
   cases hp : pop s with
   | none => simp [hp] at h
@@ -300,7 +307,7 @@ theorem InvS.ppop {k : Cfg} {m : Int} {s s' : St} (hk : 0 ≤ k.cap) (h : InvS k
   · have h0 : InvS k m { ({ s with items := t, inflight := s.inflight ++ [(id, el)], handed := s.handed ++ [id] } : St) with size := 0 } :=
       ⟨Int.le_refl 0, fun x hx => hpi x (by simp [hx]), hposF, h.elNN, Or.inl hk,
        fun _ => sumSz_nonneg0 _ hposF, hperm'⟩
-    exact h0.condSignal
+    exact h0.condBroadcast
 
 theorem InvS.pfinish {k : Cfg} {m : Int} {s : St} {id : Nat} {el : Int} {e : Nat} (hk : 0 ≤ k.cap) (h : InvS k m s) (hH : InvH s)
     (hl : s.inflight.lookup id = some el) : InvS k m (pfinish s id el e) := by
@@ -327,7 +334,7 @@ theorem InvS.pfinish {k : Cfg} {m : Int} {s : St} {id : Nat} {el : Int} {e : Nat
     · simp only [List.append_assoc, List.singleton_append]
       exact h.hperm.trans (List.Perm.append_left _ r2)
   unfold OtelVerif.C02.pfinish
-  exact h0.condSignal
+  exact h0.condBroadcast
 
 theorem InvS.pstep {k : Cfg} {m : Int} {s s' : St} {l : Label} (hk : 0 ≤ k.cap) (h : InvS k m s) (hH : InvH s)
     (hf : pfire k s l = some s') : InvS k m s' := by
@@ -447,5 +454,336 @@ theorem idle_run {k : Cfg} (ls : List Label) (s s' : St) (q : Nat) (hr : runSche
     | some s1 =>
       simp only [hf] at hr
       exact ih s1 hr (idle_step hf q hq (hl l (by simp))) (fun l' hl' => hl l' (List.mem_cons_of_mem _ hl'))
+
+end OtelVerif.C02
+
+namespace OtelVerif.C02
+
+/-! ### the literal release clause (after the Broadcast repair): whoever is registered on `hasMoreSpace` does not fit -/
+
+/-- every registered waiter's request does not fit into the current size -/
+def InvF (k : Cfg) (s : St) : Prop := ∀ p ∈ s.waiters, s.size + (s.ps p).el > k.cap
+
+/-- memory queue: nobody is registered on a stopped queue (`Shutdown` broadcasts, a stopped queue refuses before `Wait`) -/
+def InvFs (s : St) : Prop := s.stopped = true → s.waiters = []
+
+theorem InvF.of {k : Cfg} {s s' : St} (h : InvF k s) (e1 : ∀ p ∈ s'.waiters, p ∈ s.waiters) (e2 : s.size ≤ s'.size)
+    (e4 : ∀ p ∈ s'.waiters, (s'.ps p).el = (s.ps p).el) : InvF k s' := by
+  intro p hp
+  have := h p (e1 p hp)
+  rw [e4 p hp]
+  omega
+
+theorem InvF.upd {k : Cfg} {s s' : St} {p : Nat} {x : P} (h : InvF k s) (e1 : s'.waiters = s.waiters) (e2 : s'.size = s.size)
+    (e3 : s'.ps = OtelVerif.C02.upd s.ps p x) (hx : x.el = (s.ps p).el) : InvF k s' := by
+  refine h.of (by rw [e1]; exact fun _ a => a) (by omega) ?_
+  intro q _
+  rw [e3]
+  by_cases hqp : q = p
+  · subst hqp; simpa using hx
+  · rw [upd_other _ _ _ _ hqp]
+
+theorem InvF.condSignal {k : Cfg} {s : St} (h : InvF k s) : InvF k (condSignal s) := by
+  refine h.of ?_ (by rw [(condSignal_fields s).2.2.1]; exact Int.le_refl _) (fun q _ => condSignal_el s q)
+  intro p hp
+  unfold OtelVerif.C02.condSignal at hp
+  cases hw : s.waiters with
+  | nil => simp [hw] at hp
+  | cons w ws => simp only [hw] at hp; exact List.mem_cons_of_mem _ hp
+
+theorem InvF.condBroadcast {k : Cfg} (s : St) : InvF k (condBroadcast s) := by
+  intro p hp; simp [OtelVerif.C02.condBroadcast] at hp
+
+theorem InvF.ctxCleanupRefuse {k : Cfg} {s : St} {p : Nat} {r : Res} (h : InvF k s) : InvF k (refuse (ctxCleanup s p) p r) := by
+  have h1 : InvF k (ctxCleanup s p) := by
+    unfold ctxCleanup
+    split
+    · exact h.of (fun q hq => List.mem_of_mem_erase hq) (Int.le_refl _) (fun _ _ => rfl)
+    · exact h.condSignal
+  exact h1.upd (x := { (ctxCleanup s p).ps p with ph := .done r, sig := false }) rfl rfl rfl rfl
+
+theorem InvF.push {k : Cfg} {s s' : St} {p : Nat} {x : P} {el : Int} (h : InvF k s) (hw : p ∉ s.waiters) (h0 : 0 ≤ el)
+    (e1 : s'.waiters = s.waiters) (e2 : s'.size = s.size + el) (e3 : s'.ps = OtelVerif.C02.upd s.ps p x) : InvF k s' := by
+  refine h.of (by rw [e1]; exact fun _ a => a) (by omega) ?_
+  intro q hq
+  rw [e1] at hq
+  have hqp : q ≠ p := fun e => hw (e ▸ hq)
+  rw [e3, upd_other _ _ _ _ hqp]
+
+theorem InvF.registerStep {k : Cfg} {s : St} {p : Nat} {el : Int} (h : InvF k s) (hw : p ∉ s.waiters)
+    (hgt : s.size + el > k.cap) : InvF k (register s p el) := by
+  intro q hq
+  simp only [OtelVerif.C02.register, List.mem_append, List.mem_singleton] at hq ⊢
+  by_cases hqp : q = p
+  · subst hqp; simpa using hgt
+  · rw [upd_other _ _ _ _ hqp]
+    rcases hq with a | a
+    · exact h q a
+    · exact absurd a hqp
+
+theorem InvF.tryAdd {k : Cfg} {s : St} {p : Nat} {el : Int} (h : InvF k s) (hw : p ∉ s.waiters) (h0 : 0 ≤ el) :
+    InvF k (tryAdd k s p el) := by
+  unfold OtelVerif.C02.tryAdd
+  split
+  · rename_i hgt
+    split
+    · split
+      · exact h.upd (x := { s.ps p with ph := .done .stopped, sig := false }) rfl rfl rfl rfl
+      · exact h.registerStep hw hgt
+    · exact h.upd (x := { s.ps p with ph := .done .full, sig := false }) rfl rfl rfl rfl
+  · split
+    · exact h.upd (x := { s.ps p with ph := .done .stopped, sig := false }) rfl rfl rfl rfl
+    · exact h.push (x := { s.ps p with ph := if k.wfr then .waitRes else .done .ok, el := el, sig := false }) hw h0 rfl rfl rfl
+
+theorem InvF.ptryAdd {k : Cfg} {s : St} {p : Nat} {el : Int} (h : InvF k s) (hw : p ∉ s.waiters) (h0 : 0 ≤ el) :
+    InvF k (ptryAdd k s p el) := by
+  unfold OtelVerif.C02.ptryAdd
+  split
+  · rename_i hgt
+    split
+    · split
+      · exact h.upd (x := { s.ps p with ph := .done .tooLarge, sig := false }) rfl rfl rfl rfl
+      · exact h.registerStep hw hgt
+    · exact h.upd (x := { s.ps p with ph := .done .full, sig := false }) rfl rfl rfl rfl
+  · exact h.push (x := { s.ps p with ph := .done .ok, el := el, sig := false }) hw h0 rfl rfl rfl
+
+theorem InvF.step {k : Cfg} {s s' : St} {l : Label} (h : InvF k s) (hC : InvC k s) (hf : fire k s l = some s') : InvF k s' := by
+  cases l with
+  | offer p el =>
+    simp only [fire] at hf
+    split at hf
+    · rename_i hidle
+      have hw : p ∉ s.waiters := hC.not_waiter (Or.inl (by rw [hidle]; simp))
+      split at hf
+      · cases hf; exact h.upd (x := { s.ps p with ph := .done .ok }) rfl rfl rfl rfl
+      · split at hf
+        · cases hf; exact h.upd (x := { s.ps p with ph := .done .invalid, sig := false }) rfl rfl rfl rfl
+        · split at hf
+          · cases hf; exact h.upd (x := { s.ps p with ph := .done .tooLarge, sig := false }) rfl rfl rfl rfl
+          · cases hf; exact h.tryAdd hw (by omega)
+    · cases hf
+  | cancel p => simp only [fire] at hf; cases hf; exact h.upd (x := { s.ps p with canc := true }) rfl rfl rfl rfl
+  | wakeTok p =>
+    simp only [fire] at hf
+    split at hf
+    · cases hf; exact h.upd (x := { s.ps p with ph := .wokenTok }) rfl rfl rfl rfl
+    · cases hf
+  | wakeCtx p =>
+    simp only [fire] at hf
+    split at hf
+    · cases hf; exact h.upd (x := { s.ps p with ph := .wokenCtx }) rfl rfl rfl rfl
+    · cases hf
+  | relockTok p =>
+    simp only [fire] at hf
+    split at hf
+    · rename_i hc; cases hf
+      exact h.tryAdd (hC.not_waiter (Or.inr (hC.tokSig p hc))) (Int.le_of_lt (hC.elOk p (Or.inr (Or.inl hc))).1)
+    · cases hf
+  | relockCtx p =>
+    simp only [fire] at hf
+    split at hf
+    · cases hf; exact h.ctxCleanupRefuse
+    · cases hf
+  | getRes p =>
+    simp only [fire] at hf
+    split at hf
+    · split at hf
+      · rename_i e _; cases hf
+        exact h.upd (s' := { s with results := s.results.filter (fun x => x.1 != p), ps := OtelVerif.C02.upd s.ps p { s.ps p with ph := .done (.result e) } })
+          (x := { s.ps p with ph := .done (.result e) }) rfl rfl rfl rfl
+      · cases hf
+    · cases hf
+  | resCtx p =>
+    simp only [fire] at hf
+    split at hf
+    · cases hf; exact h.upd (x := { s.ps p with ph := .done .ctxErr }) rfl rfl rfl rfl
+    · cases hf
+  | read c =>
+    simp only [fire] at hf
+    split at hf
+    · cases hf
+    · split at hf
+      · rename_i s1 hp; cases hf
+        obtain ⟨id, el, t, _, rfl⟩ := pop_some hp
+        exact h.of (fun _ a => a) (Int.le_refl _) (fun _ _ => rfl)
+      · split at hf
+        · cases hf; exact h
+        · cases hf; exact h.of (fun _ a => a) (Int.le_refl _) (fun _ _ => rfl)
+  | recheck c =>
+    simp only [fire] at hf
+    split at hf
+    · split at hf
+      · rename_i s1 hp; cases hf
+        obtain ⟨id, el, t, _, rfl⟩ := pop_some hp
+        exact h.of (fun _ a => a) (Int.le_refl _) (fun _ _ => rfl)
+      · split at hf
+        · cases hf; exact h.of (fun _ a => a) (Int.le_refl _) (fun _ _ => rfl)
+        · cases hf; exact h.of (fun _ a => a) (Int.le_refl _) (fun _ _ => rfl)
+    · cases hf
+  | complete id e =>
+    simp only [fire] at hf
+    split at hf
+    · cases hf
+      unfold finish
+      simp only []
+      split
+      · intro p hp; simp [OtelVerif.C02.condBroadcast] at hp
+      · exact InvF.condBroadcast _
+    · cases hf
+  | shutdown => simp only [fire] at hf; cases hf; exact InvF.condBroadcast _
+
+theorem InvF.pstep {k : Cfg} {s s' : St} {l : Label} (h : InvF k s) (hC : InvC k s) (hf : pfire k s l = some s') : InvF k s' := by
+  cases l with
+  | offer p el =>
+    simp only [pfire] at hf
+    split at hf
+    · rename_i hc; cases hf
+      exact h.ptryAdd (hC.not_waiter (Or.inl (by rw [hc.1]; simp))) hc.2.1
+    · cases hf
+  | cancel p => simp only [pfire] at hf; cases hf; exact h.upd (x := { s.ps p with canc := true }) rfl rfl rfl rfl
+  | wakeTok p =>
+    simp only [pfire] at hf
+    split at hf
+    · cases hf; exact h.upd (x := { s.ps p with ph := .wokenTok }) rfl rfl rfl rfl
+    · cases hf
+  | wakeCtx p =>
+    simp only [pfire] at hf
+    split at hf
+    · cases hf; exact h.upd (x := { s.ps p with ph := .wokenCtx }) rfl rfl rfl rfl
+    · cases hf
+  | relockTok p =>
+    simp only [pfire] at hf
+    split at hf
+    · rename_i hc; cases hf
+      exact h.ptryAdd (hC.not_waiter (Or.inr (hC.tokSig p hc))) (Int.le_of_lt (hC.elOk p (Or.inr (Or.inl hc))).1)
+    · cases hf
+  | relockCtx p =>
+    simp only [pfire] at hf
+    split at hf
+    · cases hf; exact h.ctxCleanupRefuse
+    · cases hf
+  | getRes p => simp [pfire] at hf
+  | resCtx p => simp [pfire] at hf
+  | read c =>
+    simp only [pfire] at hf
+    split at hf
+    · cases hf
+    · split at hf
+      · cases hf; exact h
+      · split at hf
+        · rename_i s1 hp; cases hf
+          obtain ⟨s2, h1, h2 | ⟨_, h2⟩⟩ := ppop_some hp
+          · obtain ⟨id, el, t, _, rfl⟩ := pop_some h1
+            rw [h2]; exact h.of (fun _ a => a) (Int.le_refl _) (fun _ _ => rfl)
+          · rw [h2]; exact InvF.condBroadcast _
+        · cases hf; exact h.of (fun _ a => a) (Int.le_refl _) (fun _ _ => rfl)
+  | recheck c =>
+    simp only [pfire] at hf
+    split at hf
+    · split at hf
+      · cases hf; exact h.of (fun _ a => a) (Int.le_refl _) (fun _ _ => rfl)
+      · split at hf
+        · rename_i s1 hp; cases hf
+          obtain ⟨s2, h1, h2 | ⟨_, h2⟩⟩ := ppop_some hp
+          · obtain ⟨id, el, t, _, rfl⟩ := pop_some h1
+            rw [h2]; exact h.of (fun _ a => a) (Int.le_refl _) (fun _ _ => rfl)
+          · rw [h2]; intro p hp; simp [OtelVerif.C02.condBroadcast] at hp
+        · cases hf; exact h.of (fun _ a => a) (Int.le_refl _) (fun _ _ => rfl)
+    · cases hf
+  | complete id e =>
+    simp only [pfire] at hf
+    split at hf
+    · cases hf; unfold pfinish; exact InvF.condBroadcast _
+    · cases hf
+  | shutdown => simp only [pfire] at hf; cases hf; exact h.of (fun _ a => a) (Int.le_refl _) (fun _ _ => rfl)
+
+/-- memory queue: `stopped → waiters = []` -/
+theorem InvFs.step {k : Cfg} {s s' : St} {l : Label} (h : InvFs s) (hf : fire k s l = some s') : InvFs s' := by
+  by_cases hl : l = .shutdown
+  · subst hl; simp only [fire] at hf; cases hf; intro _; rfl
+  have hst := stopped_step hf hl
+  intro hs'
+  rw [hst] at hs'
+  have hw := h hs'
+  -- on a stopped queue with nobody registered, no label registers anybody
+  have hta : ∀ p el, (tryAdd k s p el).waiters = [] := by
+    intro p el
+    unfold tryAdd register refuse accept
+    simp only [hs', if_true]
+    split
+    · split <;> exact hw
+    · exact hw
+  cases l with
+  | shutdown => exact absurd rfl hl
+  | offer p el =>
+    simp only [fire] at hf
+    split at hf
+    · split at hf
+      · cases hf; exact hw
+      · split at hf
+        · cases hf; exact hw
+        · split at hf
+          · cases hf; exact hw
+          · cases hf; exact hta p el
+    · cases hf
+  | cancel p => simp only [fire] at hf; cases hf; exact hw
+  | wakeTok p => simp only [fire] at hf; split at hf <;> cases hf; exact hw
+  | wakeCtx p => simp only [fire] at hf; split at hf <;> cases hf; exact hw
+  | relockTok p => simp only [fire] at hf; split at hf <;> cases hf; exact hta p _
+  | relockCtx p =>
+    simp only [fire] at hf
+    split at hf
+    · cases hf
+      simp only [refuse]
+      unfold ctxCleanup
+      split
+      · simp [hw]
+      · unfold condSignal; simp [hw]
+    · cases hf
+  | getRes p =>
+    simp only [fire] at hf
+    split at hf
+    · split at hf <;> cases hf; exact hw
+    · cases hf
+  | resCtx p => simp only [fire] at hf; split at hf <;> cases hf; exact hw
+  | read c =>
+    simp only [fire] at hf
+    split at hf
+    · cases hf
+    · split at hf
+      · rename_i s1 hp; cases hf
+        obtain ⟨id, el, t, _, rfl⟩ := pop_some hp
+        exact hw
+      · first | (cases hf; exact hw) | (split at hf <;> cases hf <;> exact hw)
+  | recheck c =>
+    simp only [fire] at hf
+    split at hf
+    · split at hf
+      · rename_i s1 hp; cases hf
+        obtain ⟨id, el, t, _, rfl⟩ := pop_some hp
+        exact hw
+      · first | (cases hf; exact hw) | (split at hf <;> cases hf <;> exact hw)
+    · cases hf
+  | complete id e =>
+    simp only [fire] at hf
+    split at hf
+    · cases hf; unfold finish; simp only []; split <;> rfl
+    · cases hf
+
+theorem InvF.reachable {k : Cfg} (hk : 0 ≤ k.cap) {s : St} (hr : Reachable k s) : InvF k s ∧ InvFs s := by
+  have : Inv k s ∧ InvF k s ∧ InvFs s := by
+    refine reachable_induction k (fun s => Inv k s ∧ InvF k s ∧ InvFs s)
+      ⟨Inv.reachable hk ⟨[], rfl⟩, by intro p hp; simp at hp, fun _ => rfl⟩ ?_ s hr
+    intro s l s' ⟨hI, hF, hS⟩ hf
+    exact ⟨⟨hI.H.step hf, hI.C.step hf, hI.Z.step hI.H hI.C hf, hI.W.step hI.C hI.Z hf⟩, hF.step hI.C hf, hS.step hf⟩
+  exact this.2
+
+theorem InvF.preachable {k : Cfg} (hk : 0 ≤ k.cap) {s : St} (hr : PReachable k s) : InvF k s := by
+  have : Invp k s ∧ InvF k s := by
+    refine preachable_induction k (fun s => Invp k s ∧ InvF k s)
+      ⟨Invp.reachable hk ⟨[], rfl⟩, by intro p hp; simp at hp⟩ ?_ s hr
+    intro s l s' ⟨hI, hF⟩ hf
+    exact ⟨⟨hI.H.pstep hf, hI.C.pstep hI.Z.le hf, hI.Z.pstep hI.H hI.C hf, hI.W.pstep hI.C hI.Z hf⟩, hF.pstep hI.C hf⟩
+  exact this.2
 
 end OtelVerif.C02
